@@ -133,6 +133,10 @@ class DictProxy(dict):
         key, value = self._validate(key, value)
         super().setdefault(key, value)
 
+    def __ior__(self, other: Any) -> "DictProxy":  # type: ignore[override]
+        self.update(other)
+        return self
+
     def __eq__(self, other: Any) -> bool:
         if other is None or not isinstance(other, dict):
             return False
